@@ -54,6 +54,10 @@ class Pool:
         self.P15s = C.Bitwise(C.Struct("a" / C.BitsInteger(4, signed=True), "b" / C.Nibble))
         self.P15bu = C.BytesInteger(1)
         self.P15bs = C.BytesInteger(1, signed=True)
+        # sizes that depend on the keyword context, asked of the generated code and of the original
+        self.P20 = C.Struct("h" / C.Byte, "d" / C.Bytes(this._params.n), "a" / C.Array(this._params.m, C.Int16ub))
+        self.P20c = self.P20.compile()
+        self.P20m = C.Struct("x" / C.Byte, "c" / self.P20c)        # a compiled member inside an interpreted struct
         # recursion through LazyBound
         self.P16 = C.Struct("value" / C.Byte, "next" / C.If(this.value > 0, C.LazyBound(lambda: self.P16)))
         self.P16o = C.Struct("value" / C.Byte, "next" / C.Optional(C.LazyBound(lambda: self.P16o)))
@@ -198,6 +202,13 @@ def calls():
     c["P19s.build short,long"] = B("P19s", ["a", "bcdef"])
     c["P19c.build long"] = B("P19c", dict(z=bytes(200), t=1))
     c["P19c.build short"] = B("P19c", dict(z=b"", t=1))
+    c["P20c.sizeof n=3,m=0"] = S("P20c", n=3, m=0)
+    c["P20c.sizeof n=5,m=2"] = S("P20c", n=5, m=2)
+    c["P20c.sizeof no kw"] = S("P20c")
+    c["P20.sizeof n=1,m=1"] = S("P20", n=1, m=1)
+    c["P20m.sizeof n=2,m=2"] = S("P20m", n=2, m=2)
+    c["P20c.parse n=1,m=1"] = P("P20c", b"\x01\x02\x00\x03", n=1, m=1)
+    c["P20c.build n=2,m=0"] = B("P20c", dict(h=1, d=b"ab", a=[]), n=2, m=0)
     c["VarInt.parse"] = lambda p: p.C.VarInt.parse(b"\xac\x02")
     c["VarInt.build"] = lambda p: p.C.VarInt.build(300)
     c["VarInt.build bad"] = lambda p: p.C.VarInt.build(-1)
@@ -233,8 +244,8 @@ def fingerprint(pool, aux=False):
             feed(type(o).__name__ + ":" + repr(o)); return
         oid = id(o)
         if oid in seen:
-            feed("REF%d" % seen[oid]); return
-        seen[oid] = len(seen)
+            feed("REF%d" % seen[oid][0]); return
+        seen[oid] = (len(seen), o)      # the reference keeps temporaries alive: a freed object's id could otherwise be reused within one walk
         if isinstance(o, (list, tuple)):
             feed(type(o).__name__ + "[%d]" % len(o))
             for x in o:
@@ -742,7 +753,7 @@ def run_entry_big(r):
 KW_VALUES = {"len": [0, 1, 2, 3], "len1": [1, 2], "mod": [2, 3], "bool": [False, True], "key": [1, 2, 3]}
 
 
-def run_entry_kw(r, only=None):
+def run_entry_kw(r, only=None, prop="C17"):
     """the keyword context is an argument of every entry point: each class that takes a context parameter (the slot list of C05),
     referring to a keyword at top level (this.k, this._params.k) and from inside a Struct (this._.k), under every keyword value -
     parse / parse_stream / parse_file / bytearray / memoryview give one result, build / build_stream / build_file one byte string"""
@@ -773,7 +784,7 @@ def run_entry_kw(r, only=None):
                                 got = do_parse(f)
                                 r.case(nontrivial=base[0] == "ok", outcome="entrykw-parse", validated=1)
                                 if not same_res(got, base):
-                                    r.violation("C17/entry-point-differs/%s/kw:%s" % (vn, name), {"entrykw": label, "k": kv, "data": x},
+                                    r.violation("%s/entry-point-differs/%s/kw:%s" % (prop, vn, name), {"entrykw": label, "k": kv, "data": x},
                                                 "%s with k=%r on %s: parse gives %r, %s gives %r" % (T.show(t), kv, x.hex(), base, vn, got))
                             if base[0] != "ok":
                                 continue
@@ -786,7 +797,7 @@ def run_entry_kw(r, only=None):
                             for vn, got in (("build_stream", bs), ("build_file", bf)):
                                 r.case(nontrivial=bb[0] == "ok", outcome="entrykw-build", validated=1)
                                 if got != bb:
-                                    r.violation("C17/entry-point-differs/%s/kw:%s" % (vn, name), {"entrykw": label, "k": kv, "data": x},
+                                    r.violation("%s/entry-point-differs/%s/kw:%s" % (prop, vn, name), {"entrykw": label, "k": kv, "data": x},
                                                 "%s with k=%r: build(%r) gives %r, %s gives %r" % (T.show(t), kv, v, bb, vn, got))
     finally:
         for f in os.listdir(tmpdir):
